@@ -4,8 +4,9 @@ C15 — property theorems (statements only; helper lemmas live in `Proofs/C15*.l
 What is proved here is about the executable model `Mahotas.C15` that the native driver runs and
 that the correspondence check compares with the real `mahotas.thin` / `mahotas.euler`, and about
 the tables the translator extracts from `_thin.cpp` and `euler.py` on every run.
-Not proved (validated by the check only): that Gray's bit-quad sum equals components − holes
-(exhaustive small scope + random), and the Graham scan (`hullOK` is evaluated on the real output).
+Not proved in general (validated by the check only): that Gray's bit-quad sum equals components −
+holes (exhaustive small scope + random); proved for pixels, rectangles, rings and far-apart unions
+of them, with the invariances of the sum (`C15_euler_*`, round 3, end of this file).
 -/
 import Mahotas.Proofs.C15
 import Mahotas.Proofs.C15Thin
@@ -13,6 +14,11 @@ import Mahotas.Proofs.C15Model
 import Mahotas.Proofs.C15Idem
 import Mahotas.Proofs.C15Hull
 import Mahotas.Proofs.C15Graham
+import Mahotas.Proofs.C15Euler
+import Mahotas.Proofs.C15Cell
+import Mahotas.Proofs.C15Count
+import Mahotas.Proofs.C15Flood
+import Mahotas.Proofs.C15FloodPx
 open Mahotas Mahotas.C15
 
 /-- **thin ⊆ input.** Every pixel set in the model of `mahotas.thin` (crop to the bounding box, zero
@@ -136,3 +142,447 @@ example : ∃ x : Px, delT e0 {p | (p.1 = 0 ∨ p.1 = 1) ∧ -1 ≤ p.2 ∧ p.2 
     rcases ht with rfl | rfl | rfl | rfl | rfl | rfl <;> simp⟩
 
 example : grayQuad true true false false true = -2 ∧ grayQuad false true false false true = 2 := by decide
+
+/-! ### Round 3: exact identities of the Euler model's bit-quad sum
+
+Gray's identity (bit-quad sum = components − holes) is not proved in general; the theorems below
+prove what supports it, about `eulerModel4` itself (generated tables, every image size): the value
+on the basic shapes (one pixel, filled rectangle: one component, no hole → 4·1; rectangular ring:
+one component, one hole → 4·0), the invariances, and additivity over far-apart parts — so that
+the identity holds for every image that is a far-apart union of translated/transposed rectangles
+and rings. -/
+
+/-- **A single pixel has Euler number 1.** An image of any size whose only set pixel is `(y0, x0)`
+(necessarily inside the image: reads outside are `false`) has `eulerModel4 = 4` (= 4 · 1) for
+8- and for 4-connectivity. -/
+theorem C15_euler_single_pixel (b : Bin) (conn8 : Bool) (y0 x0 : Int)
+    (h : ∀ y x, b.get y x = true ↔ (y = y0 ∧ x = x0)) : eulerModel4 b conn8 = 4 := by
+  apply euler_rect b conn8 y0 1 x0 1 (by omega) (by omega)
+  intro y x
+  rw [Bool.eq_iff_iff, h]
+  simp only [rectFn, ivl, Bool.and_eq_true, decide_eq_true_eq]
+  omega
+
+/-- **A filled rectangle has Euler number 1.** An image of any size whose set pixels are exactly
+the `a × b` rectangle `[y0, y0+a) × [x0, x0+b)` with `a, b ≥ 1` (necessarily inside the image) has
+`eulerModel4 = 4` for both connectivities: only the four corner windows have non-zero weight. -/
+theorem C15_euler_rectangle (bi : Bin) (conn8 : Bool) (y0 x0 a b : Int) (ha : 1 ≤ a) (hb : 1 ≤ b)
+    (h : ∀ y x, bi.get y x = true ↔ (y0 ≤ y ∧ y < y0 + a ∧ x0 ≤ x ∧ x < x0 + b)) :
+    eulerModel4 bi conn8 = 4 := by
+  apply euler_rect bi conn8 y0 a x0 b ha hb
+  intro y x
+  rw [Bool.eq_iff_iff, h]
+  simp only [rectFn, ivl, Bool.and_eq_true, decide_eq_true_eq]
+  omega
+
+/-- **A rectangular ring has Euler number 0.** An image of any size whose set pixels are exactly
+the boundary pixels of the rectangle `[y0, y0+a) × [x0, x0+b)` with `a, b ≥ 3` (a ring of thickness
+one around a hole of `(a−2) × (b−2)` pixels) has `eulerModel4 = 0` for both connectivities (one
+component, one hole): four outer corner windows of weight +1, four inner corner windows with three
+pixels of weight −1. -/
+theorem C15_euler_frame (bi : Bin) (conn8 : Bool) (y0 x0 a b : Int) (ha : 3 ≤ a) (hb : 3 ≤ b)
+    (h : ∀ y x, bi.get y x = true ↔ (y0 ≤ y ∧ y < y0 + a ∧ x0 ≤ x ∧ x < x0 + b ∧
+      (y = y0 ∨ y = y0 + a - 1 ∨ x = x0 ∨ x = x0 + b - 1))) :
+    eulerModel4 bi conn8 = 0 := by
+  apply euler_frame bi conn8 y0 a x0 b ha hb
+  intro y x
+  rw [Bool.eq_iff_iff, h]
+  simp only [frameFn, rectFn, ivl, Bool.and_eq_true, Bool.not_eq_true', decide_eq_true_eq,
+    Bool.and_eq_false_iff, decide_eq_false_iff_not]
+  omega
+
+/-- **Translation invariance.** If `b'` is `b` translated by `(dy, dx)` — possibly onto a canvas
+of another size; since reads outside a canvas are `false`, the hypothesis says that no set pixel is
+lost — then the bit-quad sums agree, for both connectivities. -/
+theorem C15_euler_translation_invariant (b b' : Bin) (conn8 : Bool) (dy dx : Int)
+    (h : ∀ y x, b'.get (y + dy) (x + dx) = b.get y x) : eulerModel4 b' conn8 = eulerModel4 b conn8 :=
+  euler_translate b b' conn8 dy dx h
+
+/-- **Transposition invariance.** If `b'` is the transpose of `b` then the bit-quad sums agree, for
+both connectivities (Gray's weights are symmetric under swapping the two off-diagonal pixels). -/
+theorem C15_euler_transpose_invariant (b b' : Bin) (conn8 : Bool)
+    (h : ∀ y x, b'.get y x = b.get x y) : eulerModel4 b' conn8 = eulerModel4 b conn8 :=
+  euler_transpose b b' conn8 h
+
+/-- **Additivity over far-apart parts.** If `u` is the pixelwise union of `b1` and `b2` (canvases
+of any sizes) and every set pixel of `b1` is at Chebyshev distance ≥ 2 from every set pixel of `b2`
+(they are neither equal nor 8-neighbours, so no 2×2 window meets both), then the bit-quad sum of
+the union is the sum of the two bit-quad sums, for both connectivities. -/
+theorem C15_euler_additive_far_apart (b1 b2 u : Bin) (conn8 : Bool)
+    (hu : ∀ y x, u.get y x = (b1.get y x || b2.get y x))
+    (hfar : ∀ y1 x1 y2 x2, b1.get y1 x1 = true → b2.get y2 x2 = true →
+      (y1 + 1 < y2 ∨ y2 + 1 < y1 ∨ x1 + 1 < x2 ∨ x2 + 1 < x1)) :
+    eulerModel4 u conn8 = eulerModel4 b1 conn8 + eulerModel4 b2 conn8 := by
+  apply euler_additive b1 b2 u conn8 hu
+  rintro y x ⟨a1, a2⟩
+  obtain ⟨y1, x1, e1, r1, c1⟩ := active_rows b1.get y x a1
+  obtain ⟨y2, x2, e2, r2, c2⟩ := active_rows b2.get y x a2
+  have := hfar y1 x1 y2 x2 e1 e2
+  omega
+
+/-- **Additivity over parts separated by an empty row or column.** If `u` is the pixelwise union
+of `b1` and `b2` (canvases of any sizes) and some row `k` separates them (every set pixel of `b1`
+has row `< k`, every set pixel of `b2` has row `> k`) or some column `k` does, then
+`eulerModel4 u = eulerModel4 b1 + eulerModel4 b2`, for both connectivities. -/
+theorem C15_euler_additive_disjoint (b1 b2 u : Bin) (conn8 : Bool)
+    (hu : ∀ y x, u.get y x = (b1.get y x || b2.get y x))
+    (hsep : (∃ k : Int, (∀ y x, b1.get y x = true → y < k) ∧ (∀ y x, b2.get y x = true → k < y)) ∨
+      (∃ k : Int, (∀ y x, b1.get y x = true → x < k) ∧ (∀ y x, b2.get y x = true → k < x))) :
+    eulerModel4 u conn8 = eulerModel4 b1 conn8 + eulerModel4 b2 conn8 := by
+  apply C15_euler_additive_far_apart b1 b2 u conn8 hu
+  intro y1 x1 y2 x2 e1 e2
+  rcases hsep with ⟨k, h1, h2⟩ | ⟨k, h1, h2⟩
+  · have := h1 y1 x1 e1
+    have := h2 y2 x2 e2
+    omega
+  · have := h1 y1 x1 e1
+    have := h2 y2 x2 e2
+    omega
+
+/-! ### non-vacuity (round 3) -/
+
+example : eulerModel4 (Bin.ofInts 1 1 [1]) true = 4 ∧ eulerModel4 (Bin.ofInts 1 1 [1]) false = 4 := by decide
+example : eulerModel4 (Bin.ofInts 2 2 [1, 1, 1, 1]) true = 4 ∧ eulerModel4 (Bin.ofInts 2 2 [1, 1, 1, 1]) false = 4 := by
+  decide
+example : eulerModel4 (Bin.ofInts 3 3 [1, 1, 1, 1, 0, 1, 1, 1, 1]) true = 0 ∧
+    eulerModel4 (Bin.ofInts 3 3 [1, 1, 1, 1, 0, 1, 1, 1, 1]) false = 0 := by decide
+example : eulerModel4 (Bin.ofInts 1 3 [1, 0, 1]) true = 8 ∧ eulerModel4 (Bin.ofInts 1 3 [1, 0, 1]) false = 8 := by
+  decide
+/-- the far-apart hypothesis is needed: two diagonal neighbours are one 8-component (4) but two
+    4-components (8) -/
+example : eulerModel4 (Bin.ofInts 2 2 [1, 0, 0, 1]) true = 4 ∧ eulerModel4 (Bin.ofInts 2 2 [1, 0, 0, 1]) false = 8 := by
+  decide
+
+/-- the hypotheses are satisfiable: a 3×4 rectangle at (1, 2) inside a 5×7 canvas -/
+example (c : Bool) : eulerModel4 (Bin.tabulate 5 7 fun y x => decide (1 ≤ y ∧ y < 4 ∧ 2 ≤ x ∧ x < 6)) c = 4 :=
+  C15_euler_rectangle _ c 1 2 3 4 (by omega) (by omega) (by
+    intro y x
+    rw [Bin.get_tabulate]
+    simp only [Bool.and_eq_true, decide_eq_true_eq]
+    omega)
+
+/-- a 4×5 ring at (1, 1) inside a 6×7 canvas -/
+example (c : Bool) : eulerModel4 (Bin.tabulate 6 7 fun y x =>
+    decide (1 ≤ y ∧ y < 5 ∧ 1 ≤ x ∧ x < 6 ∧ (y = 1 ∨ y = 4 ∨ x = 1 ∨ x = 5))) c = 0 :=
+  C15_euler_frame _ c 1 1 4 5 (by omega) (by omega) (by
+    intro y x
+    rw [Bin.get_tabulate]
+    simp only [Bool.and_eq_true, decide_eq_true_eq]
+    omega)
+
+/-- one pixel at (2, 3) of a 4×5 canvas -/
+example (c : Bool) : eulerModel4 (Bin.tabulate 4 5 fun y x => decide (y = 2 ∧ x = 3)) c = 4 :=
+  C15_euler_single_pixel _ c 2 3 (by
+    intro y x
+    rw [Bin.get_tabulate]
+    simp only [Bool.and_eq_true, decide_eq_true_eq]
+    omega)
+
+/-- translation onto a canvas of another size, transposition, and a union across an empty column:
+    a rectangle and a ring side by side have bit-quad sum 4 + 0 -/
+example (c : Bool) (f : Int → Int → Bool) :
+    eulerModel4 (Bin.tabulate 9 8 fun y x => f (y - 2) (x - 1) && decide (2 ≤ y ∧ y < 5 ∧ 1 ≤ x ∧ x < 5)) c =
+      eulerModel4 (Bin.tabulate 3 4 f) c :=
+  C15_euler_translation_invariant _ _ c 2 1 (by
+    intro y x
+    rw [Bin.get_tabulate, Bin.get_tabulate]
+    have e1 : y + 2 - 2 = y := by omega
+    have e2 : x + 1 - 1 = x := by omega
+    rw [e1, e2]
+    cases f y x
+    · simp
+    · rw [Bool.eq_iff_iff]
+      simp only [Bool.and_eq_true, decide_eq_true_eq, true_and, and_true]
+      omega)
+
+example (c : Bool) (f : Int → Int → Bool) :
+    eulerModel4 (Bin.tabulate 4 3 fun y x => f x y) c = eulerModel4 (Bin.tabulate 3 4 f) c :=
+  C15_euler_transpose_invariant _ _ c (by
+    intro y x
+    rw [Bin.get_tabulate, Bin.get_tabulate]
+    cases f x y
+    · simp
+    · rw [Bool.eq_iff_iff]
+      simp only [Bool.and_eq_true, decide_eq_true_eq, and_true]
+      omega)
+
+example (c : Bool) :
+    eulerModel4 (Bin.tabulate 3 6 fun y x =>
+      decide (x < 2) || decide (3 ≤ x ∧ (y = 0 ∨ y = 2 ∨ x = 3 ∨ x = 5))) c = 4 + 0 := by
+  rw [C15_euler_additive_disjoint (Bin.tabulate 3 2 fun _ _ => true)
+    (Bin.tabulate 3 6 fun y x => decide (3 ≤ x ∧ (y = 0 ∨ y = 2 ∨ x = 3 ∨ x = 5))) _ c ?_ (Or.inr ⟨2, ?_, ?_⟩)]
+  · congr 1
+    · exact C15_euler_rectangle _ c 0 0 3 2 (by omega) (by omega) (by
+        intro y x
+        rw [Bin.get_tabulate]
+        simp only [Bool.and_eq_true, decide_eq_true_eq, and_true]
+        omega)
+    · exact C15_euler_frame _ c 0 3 3 3 (by omega) (by omega) (by
+        intro y x
+        rw [Bin.get_tabulate]
+        simp only [Bool.and_eq_true, decide_eq_true_eq]
+        omega)
+  · intro y x
+    rw [Bool.eq_iff_iff]
+    simp only [Bin.get_tabulate, Bool.and_eq_true, Bool.or_eq_true, decide_eq_true_eq, and_true]
+    omega
+  · intro y x
+    simp only [Bin.get_tabulate, Bool.and_eq_true, decide_eq_true_eq, and_true]
+    omega
+  · intro y x
+    simp only [Bin.get_tabulate, Bool.and_eq_true, decide_eq_true_eq]
+    omega
+
+/-- **The bit-quad sum is four times the Euler characteristic `V − E + F` of a cell complex** — for every image
+and both conventions, about `eulerModel4` itself. `F = pixelsN` counts the set pixels; for 8-connectivity
+(`conn8 = true`, closed unit squares) `E = edgesN` counts the unit edges and `V = verticesN` the lattice vertices
+adjacent to *some* set pixel; for 4-connectivity an edge (vertex) counts iff *both* (all four) adjacent pixels are set
+(`cop`), all read with background outside the image. The identity is local double counting (every pixel lies in four
+2×2 windows, every edge in two, every vertex in one; `grayQuad_cells` checks Gray's weights against
+`4·[vertex] − 2·[edges] + [pixels]` for all 32 cases). Gray's identity `euler = components − holes` is thereby
+reduced to the Euler–Poincaré formula `V − E + F = b₀ − b₁` for this planar complex, which is **not** proved
+(validated exhaustively on small images and randomly). -/
+theorem C15_euler_cell_complex (b : Bin) (conn8 : Bool) :
+    eulerModel4 b conn8 = 4 * (verticesN conn8 b - edgesN conn8 b + pixelsN b) :=
+  eulerModel4_eq_cells b conn8
+
+/-- one pixel: 4 vertices, 4 edges, 1 face (8-conn.) / 0 vertices, 0 edges, 1 pixel (4-conn.);
+    a diagonal pair: 7 − 8 + 2 = 1 (8-conn.) and 0 − 0 + 2 = 2 (4-conn.) -/
+example : verticesN true (Bin.ofInts 1 1 [1]) = 4 ∧ edgesN true (Bin.ofInts 1 1 [1]) = 4 ∧
+    pixelsN (Bin.ofInts 1 1 [1]) = 1 ∧ verticesN false (Bin.ofInts 1 1 [1]) = 0 ∧
+    verticesN true (Bin.ofInts 2 2 [1, 0, 0, 1]) = 7 ∧ edgesN true (Bin.ofInts 2 2 [1, 0, 0, 1]) = 8 ∧
+    edgesN false (Bin.ofInts 2 2 [1, 0, 0, 1]) = 0 := by
+  decide +kernel
+
+/-- **thin keeps the NUMBER of 8-connected components** — literally: `Comps A` is the set of 8-connected components of
+the pixel set `A` (the quotient of `A` by 8-connectivity inside `A`); for every image and every `max_iter` the component
+sets of the input and of the model of `mahotas.thin` have the same (finite) cardinality, and so have the pixel sets
+before and after every single pass and before and after the loop. (`SameComps A B` gives the bijection
+`Comps B → Comps A` induced by the inclusion: `compMap_bijective`.) -/
+theorem C15_thin_same_number_of_components (b : Bin) (maxIter : Int) :
+    Nat.card (Comps (bset (thinModel b maxIter))) = Nat.card (Comps (bset b)) ∧
+    Finite (Comps (bset b)) ∧ Finite (Comps (bset (thinModel b maxIter))) ∧
+    Nat.card (Comps (bset (thinCore b maxIter))) = Nat.card (Comps (bset b)) ∧
+    (∀ e ∈ Generated.thinElems, Nat.card (Comps (bset (pass b e))) = Nat.card (Comps (bset b))) :=
+  ⟨(thinModel_sameComps b maxIter).card_eq, comps_finite b, comps_finite _,
+   (thinCore_sameComps b maxIter).card_eq,
+   fun e he => (C15_thin_pass_preserves_components e he b).card_eq⟩
+
+/-- non-vacuity: the one-pixel image has exactly one component -/
+example : Nat.card (Comps (bset (Bin.ofInts 1 1 [1]))) = 1 := by
+  rw [Nat.card_eq_one_iff_unique]
+  have hmem : ((0, 0) : Px) ∈ bset (Bin.ofInts 1 1 [1]) := by
+    show (Bin.ofInts 1 1 [1]).get 0 0 = true
+    decide
+  refine ⟨⟨fun qa qb => ?_⟩, ⟨Quotient.mk _ ⟨(0, 0), hmem⟩⟩⟩
+  induction qa using Quotient.ind with
+  | _ a =>
+    induction qb using Quotient.ind with
+    | _ c =>
+      have ha := get_inrange _ a.1.1 a.1.2 a.2
+      have hc := get_inrange _ c.1.1 c.1.2 c.2
+      have hac : a = c := by
+        apply Subtype.ext
+        apply Prod.ext
+        · have h1 := ha.1; have h2 := ha.2.1; have h3 := hc.1; have h4 := hc.2.1
+          simp only [Bin.ofInts] at h2 h4
+          omega
+        · have h1 := ha.2.2.1; have h2 := ha.2.2.2; have h3 := hc.2.2.1; have h4 := hc.2.2.2
+          simp only [Bin.ofInts] at h2 h4
+          omega
+      rw [hac]
+/-! ## Round 3 addendum: the flood-fill counting oracle counts connected components -/
+
+/-- **The flood-fill oracle counts the connected components** — for every `rows`, `cols`, every mask array (reads
+outside the array are `false`; no size hypothesis is needed) and both connectivities. The graph: a vertex
+(`IsV rows cols mask i`) is a flat index `i < rows * cols` with `mask[i] = true`; `adjIdx rows cols conn8 i j` says
+that `j`'s (row, column) is `i`'s (row `i / cols`, column `i % cols`) plus one of the offsets of `neigh conn8`
+(the 8 or the 4 neighbours), inside the box `[0, rows) × [0, cols)` (`tgt`, the model's own index arithmetic);
+`IConn` is the reflexive-transitive closure of "adjacent vertices" (it is symmetric: `IConn.symm`). Claim: there is a
+duplicate-free list `seeds` whose **length is the first component of `countComps`**, whose members are exactly the
+set pixels that are the smallest index of their connected component (one canonical representative per component), and
+every set pixel is connected to exactly one member. Hence `(countComps rows cols mask conn8).1` is the number of
+connected components. Proof: loop invariant of `flood` (everything newly marked is connected to the seed; every marked
+pixel that has left the stack has all its set neighbours marked), fuel adequacy (`stack length + #unmarked set pixels`
+never increases over a step that pops one pixel, so `rows * cols + 1` steps empty the stack), and the invariant of the
+outer scan (the marked set is the union of the components of the seeds found so far). -/
+theorem C15_components_count (rows cols : Nat) (mask : Array Bool) (conn8 : Bool) :
+    ∃ seeds : List Nat, seeds.Nodup ∧ seeds.length = (countComps rows cols mask conn8).1 ∧
+      (∀ i, i ∈ seeds ↔ (IsV rows cols mask i ∧ ∀ j, IConn rows cols mask conn8 i j → i ≤ j)) ∧
+      (∀ k, IsV rows cols mask k → ∃! s, s ∈ seeds ∧ IConn rows cols mask conn8 s k) := by
+  obtain ⟨seeds, _, h1, h2, h3, h4, _⟩ := countComps_spec rows cols mask conn8
+  exact ⟨seeds, h1, h2, h3, h4⟩
+
+/-- **`components b conn8` is the number of `conn8`-connected components of the foreground of `b`** (the oracle used by
+the correspondence check for the thinning outputs and for `eulerSpec`): the statement of `C15_components_count` for
+the image's own `rows`, `cols`, `data`. -/
+theorem C15_components_count_bin (b : Bin) (conn8 : Bool) :
+    ∃ seeds : List Nat, seeds.Nodup ∧ seeds.length = components b conn8 ∧
+      (∀ i, i ∈ seeds ↔ (IsV b.rows b.cols b.data i ∧ ∀ j, IConn b.rows b.cols b.data conn8 i j → i ≤ j)) ∧
+      (∀ k, IsV b.rows b.cols b.data k → ∃! s, s ∈ seeds ∧ IConn b.rows b.cols b.data conn8 s k) :=
+  C15_components_count b.rows b.cols b.data conn8
+
+/-- **The second counter counts the components that meet the image border**: there is a duplicate-free list whose
+length is `(countComps rows cols mask conn8).2` and whose members are exactly the canonical representatives (smallest
+index of the component) of those components that contain a pixel `k` in row 0, column 0, the last row or the last
+column (`bdr rows cols k`). -/
+theorem C15_components_border_count (rows cols : Nat) (mask : Array Bool) (conn8 : Bool) :
+    ∃ touching : List Nat, touching.Nodup ∧ touching.length = (countComps rows cols mask conn8).2 ∧
+      (∀ s, s ∈ touching ↔ ((IsV rows cols mask s ∧ ∀ j, IConn rows cols mask conn8 s j → s ≤ j) ∧
+        ∃ k, IConn rows cols mask conn8 s k ∧ bdr rows cols k = true)) := by
+  obtain ⟨_, seeds2, _, _, _, _, h5, h6, h7⟩ := countComps_spec rows cols mask conn8
+  exact ⟨seeds2, h5, h6, h7⟩
+
+/-- **`holes b conn8` is the number of `conn8`-connected components of the background that do not meet the image
+border**: the background mask is `b.data.map (!·)` (for a well-formed image, `b.data.size = b.rows * b.cols`, its
+vertices are exactly the unset pixels of the box); there is a duplicate-free list of length `holes b conn8` whose members
+are exactly the canonical representatives of the background components containing no border pixel. -/
+theorem C15_holes_count (b : Bin) (conn8 : Bool) :
+    ∃ inner : List Nat, inner.Nodup ∧ inner.length = holes b conn8 ∧
+      (∀ s, s ∈ inner ↔ ((IsV b.rows b.cols (b.data.map (!·)) s ∧
+          ∀ j, IConn b.rows b.cols (b.data.map (!·)) conn8 s j → s ≤ j) ∧
+        ¬ ∃ k, IConn b.rows b.cols (b.data.map (!·)) conn8 s k ∧ bdr b.rows b.cols k = true)) :=
+  countComps_inner b.rows b.cols (b.data.map (!·)) conn8
+
+/-- the background mask of a well-formed image: inside the box a pixel is a background vertex iff it is not set -/
+theorem C15_background_vertex (b : Bin) (hwf : b.data.size = b.rows * b.cols) (k : Nat) :
+    IsV b.rows b.cols (b.data.map (!·)) k ↔ (k < b.rows * b.cols ∧ b.data.getD k false = false) := by
+  unfold IsV mk
+  constructor
+  · rintro ⟨h1, h2⟩
+    refine ⟨h1, ?_⟩
+    have : k < b.data.size := by omega
+    simpa [Array.getD_eq_getD_getElem?, this] using h2
+  · rintro ⟨h1, h2⟩
+    refine ⟨h1, ?_⟩
+    have : k < b.data.size := by omega
+    simpa [Array.getD_eq_getD_getElem?, this] using h2
+
+/-- **`eulerSpec` is (number of foreground components) − (number of background components in the dual connectivity
+that do not meet the border)**, with both numbers given as lengths of duplicate-free lists of canonical
+representatives. -/
+theorem C15_eulerSpec_count (b : Bin) (conn8 : Bool) :
+    ∃ comps inner : List Nat, comps.Nodup ∧ inner.Nodup ∧
+      eulerSpec b conn8 = (comps.length : Int) - (inner.length : Int) ∧
+      (∀ i, i ∈ comps ↔ (IsV b.rows b.cols b.data i ∧ ∀ j, IConn b.rows b.cols b.data conn8 i j → i ≤ j)) ∧
+      (∀ s, s ∈ inner ↔ ((IsV b.rows b.cols (b.data.map (!·)) s ∧
+          ∀ j, IConn b.rows b.cols (b.data.map (!·)) (!conn8) s j → s ≤ j) ∧
+        ¬ ∃ k, IConn b.rows b.cols (b.data.map (!·)) (!conn8) s k ∧ bdr b.rows b.cols k = true)) := by
+  obtain ⟨comps, h1, h2, h3, _⟩ := C15_components_count_bin b conn8
+  obtain ⟨inner, g1, g2, g3⟩ := C15_holes_count b (!conn8)
+  exact ⟨comps, inner, h1, g1, by unfold eulerSpec; rw [h2, g2], h3, g3⟩
+
+/-- non-vacuity: the diagonal pair `[[1,0],[0,1]]` is one 8-component and two 4-components, all touching the border;
+    its pixels 0 and 3 are joined by an edge for 8-connectivity (`IConn`) and are not adjacent for 4-connectivity;
+    the 3×3 ring has one component and one hole (4-connected background); with the corner pixel `(0,0)` removed the
+    centre is still a hole for the 4-connected background (the gap is diagonal) but not for the 8-connected one. -/
+example : countComps 2 2 #[true, false, false, true] true = (1, 1) ∧
+    countComps 2 2 #[true, false, false, true] false = (2, 2) ∧
+    components (Bin.ofInts 3 3 [1, 1, 1, 1, 0, 1, 1, 1, 1]) true = 1 ∧
+    holes (Bin.ofInts 3 3 [1, 1, 1, 1, 0, 1, 1, 1, 1]) false = 1 ∧
+    eulerSpec (Bin.ofInts 3 3 [1, 1, 1, 1, 0, 1, 1, 1, 1]) true = 0 ∧
+    holes (Bin.ofInts 3 3 [0, 1, 1, 1, 0, 1, 1, 1, 1]) false = 1 ∧
+    holes (Bin.ofInts 3 3 [0, 1, 1, 1, 0, 1, 1, 1, 1]) true = 0 := by
+  decide +kernel
+
+example : IConn 2 2 #[true, false, false, true] true 0 3 ∧ ¬ adjIdx 2 2 false 0 3 := by
+  refine ⟨Relation.ReflTransGen.single ⟨⟨by decide, by decide⟩, ⟨by decide, by decide⟩, (1, 1), by decide, by decide⟩, ?_⟩
+  rintro ⟨d, hd, ht⟩
+  revert ht
+  revert d
+  decide
+
+/-- **The edges of the counted graph in pixel coordinates** (both connectivities): for a flat index `j` inside the box,
+`adjIdx rows cols conn8 i j` holds iff (row of `j` − row of `i`, column of `j` − column of `i`) is one of the offsets
+of `neigh conn8`, with row `= index / cols` and column `= index % cols`. So the graph of `C15_components_count` is the
+usual 8- (4-) neighbourhood graph on the set pixels of the `rows × cols` box. -/
+theorem C15_flood_graph_coordinates (rows cols : Nat) (conn8 : Bool) (i j : Nat) (hj : j < rows * cols) :
+    adjIdx rows cols conn8 i j ↔
+      (((j / cols : Nat) : Int) - ((i / cols : Nat) : Int), ((j % cols : Nat) : Int) - ((i % cols : Nat) : Int))
+        ∈ neigh conn8 :=
+  adjIdx_iff hj
+
+/-- **For 8-connectivity the oracle counts the classes of `Conn (bset b)`** — the very connectivity relation
+(`adj8` on pixels `(row, column) : ℤ × ℤ`, chains inside the pixel set `bset b` of the image) that the thinning theorems
+`C15_pass_preserves_components` … speak about: there is a duplicate-free list of `components b true` flat indices of
+set pixels such that every pixel of `bset b` is `Conn (bset b)`-connected to the pixel (`pxOf`: row `s / cols`, column
+`s % cols`) of exactly one member. Hence `components b true` is the number of 8-connected components of `bset b`, and
+the `nin = nout` comparison of the check compares exactly the quantity that `SameComps` preserves. -/
+theorem C15_components_count_pixels (b : Bin) :
+    ∃ seeds : List Nat, seeds.Nodup ∧ seeds.length = components b true ∧
+      (∀ s ∈ seeds, s < b.rows * b.cols ∧ pxOf b.cols s ∈ bset b) ∧
+      (∀ p ∈ bset b, ∃! s, s ∈ seeds ∧ Conn (bset b) (pxOf b.cols s) p) := by
+  obtain ⟨seeds, h1, h2, h3, h4⟩ := C15_components_count_bin b true
+  refine ⟨seeds, h1, h2, fun s hs => (isV_iff b s).mp ((h3 s).mp hs).1, ?_⟩
+  intro p hp
+  obtain ⟨l, e⟩ := box_idx (bset_box b hp)
+  have hV : IsV b.rows b.cols b.data (idxOf b.cols p) := (isV_iff b _).mpr ⟨l, by rw [e]; exact hp⟩
+  obtain ⟨s, ⟨hs1, hs2⟩, huniq⟩ := h4 _ hV
+  refine ⟨s, ⟨hs1, ?_⟩, ?_⟩
+  · have := ((IConn_iff_Conn b ((h3 s).mp hs1).1).mp hs2).2
+    rwa [e] at this
+  · rintro s' ⟨hs1', hs2'⟩
+    apply huniq
+    refine ⟨hs1', (IConn_iff_Conn b ((h3 s').mp hs1').1).mpr ⟨l, ?_⟩⟩
+    rw [e]; exact hs2'
+
+/-- non-vacuity: in the 2×2 diagonal pair the pixels `(0,0)` and `(1,1)` form one class of `Conn (bset b)`, and the
+    oracle says 1 -/
+example : components (Bin.ofInts 2 2 [1, 0, 0, 1]) true = 1 ∧
+    Conn (bset (Bin.ofInts 2 2 [1, 0, 0, 1])) (0, 0) (1, 1) := by
+  refine ⟨by decide +kernel, Relation.ReflTransGen.single
+    ⟨show (Bin.ofInts 2 2 [1, 0, 0, 1]).get 0 0 = true by decide,
+     show (Bin.ofInts 2 2 [1, 0, 0, 1]).get 1 1 = true by decide, ?_⟩⟩
+  rw [adj8_iff]
+  decide
+
+/-- **Images with the same 8-components get the same count from the oracle**: if `SameComps (bset a) (bset b)` (the
+pixel set of `b` lies in that of `a`, connectivity between pixels of `b` is the same in both, every pixel of `a` is
+connected to one of `b` — the relation the thinning theorems establish) then `components a true = components b true`.
+(Counting argument on the two systems of representatives of `C15_components_count_pixels`.) -/
+theorem C15_components_eq_of_sameComps (a b : Bin) (h : SameComps (bset a) (bset b)) :
+    components a true = components b true := by
+  obtain ⟨la, a1, a2, a3, a4⟩ := C15_components_count_pixels a
+  obtain ⟨lb, b1, b2, b3, b4⟩ := C15_components_count_pixels b
+  rw [← a2, ← b2]
+  exact sdr_length_eq h ⟨a1, fun s hs => (a3 s hs).2, a4⟩ ⟨b1, fun s hs => (b3 s hs).2, b4⟩
+
+/-- **`thin` keeps the number of 8-connected components as counted by the oracle** — the `nin = nout` comparison of the
+correspondence check, proved for the model and every image and every `max_iter`:
+`components (thinModel b maxIter) true = components b true`
+(from `C15_thin_preserves_components` and `C15_components_eq_of_sameComps`). -/
+theorem C15_thin_components_count (b : Bin) (maxIter : Int) :
+    components (thinModel b maxIter) true = components b true :=
+  (C15_components_eq_of_sameComps b (thinModel b maxIter) (C15_thin_preserves_components b maxIter)).symm
+
+/-- non-vacuity: a filled 3×3 square thins to fewer pixels and keeps its single component -/
+example : components (Bin.ofInts 3 3 [1, 1, 1, 1, 1, 1, 1, 1, 1]) true = 1 ∧
+    (thinModel (Bin.ofInts 3 3 [1, 1, 1, 1, 1, 1, 1, 1, 1])).count < 9 ∧
+    components (thinModel (Bin.ofInts 3 3 [1, 1, 1, 1, 1, 1, 1, 1, 1])) true = 1 := by
+  decide +kernel
+
+/-- **The oracle's count is the cardinality of the set of components**: `components b true` (the flood-fill counter the
+check evaluates on inputs and real outputs) equals `Nat.card (Comps (bset b))`, the number of classes of 8-connectivity
+on the pixel set — for every image. (From the system of distinct representatives of `C15_components_count_pixels`: the
+map `s ↦ ⟦pxOf s⟧` from the seeds to the components is a bijection.) With `C15_thin_same_number_of_components` this is
+`components (thin b) = components b` once more, now through the quotient. -/
+theorem C15_components_eq_card (b : Bin) : components b true = Nat.card (Comps (bset b)) := by
+  obtain ⟨seeds, hnd, hlen, hmem, huniq⟩ := C15_components_count_pixels b
+  have hcard : Nat.card {s : Nat // s ∈ seeds} = seeds.length := by
+    rw [← List.toFinset_card_of_nodup hnd, ← Fintype.card_coe, ← Nat.card_eq_fintype_card]
+    exact Nat.card_congr (Equiv.subtypeEquivRight (by simp))
+  rw [← hlen, ← hcard]
+  refine Nat.card_congr (Equiv.ofBijective
+    (fun s : {s : Nat // s ∈ seeds} => (Quotient.mk (compSetoid (bset b)) ⟨pxOf b.cols s.1, (hmem s.1 s.2).2⟩ :
+      Comps (bset b))) ⟨?_, ?_⟩)
+  · intro s t hst
+    have hc : Conn (bset b) (pxOf b.cols s.1) (pxOf b.cols t.1) := Quotient.exact hst
+    obtain ⟨u, _, hu⟩ := huniq (pxOf b.cols t.1) (hmem t.1 t.2).2
+    have h1 := hu s.1 ⟨s.2, hc⟩
+    have h2 := hu t.1 ⟨t.2, Conn.refl _⟩
+    exact Subtype.ext (h1.trans h2.symm)
+  · intro q
+    induction q using Quotient.ind with
+    | _ p =>
+      obtain ⟨s, ⟨hs, hc⟩, _⟩ := huniq p.1 p.2
+      exact ⟨⟨s, hs⟩, Quotient.sound hc⟩
